@@ -535,4 +535,64 @@ theorem data_bumpAll {m : M} {c i d0 : Nat} {x : Req} (h : DataOK roots prog m) 
     show tally (fAny d) (m.setCore c (setReq (m.core c) i r')).cores + sAny d m.stack = 0
     rw [hY]; exact h.excl d hp'
 
+/-! ### one machine step -/
+
+theorem resolverOn_pending (m : M) (t : Nat) (v : Int) (h : (m.core t).st = .pending) : resolverOn m t v = fulfilAndWalk m t v := by
+  unfold resolverOn; rw [h]
+theorem rejectionOn_pending (m : M) (t : Nat) (e : Nat) (h : (m.core t).st = .pending) : rejectionOn m t e = rejectAndWalk m t e := by
+  unfold rejectionOn; rw [h]
+
+theorem fAllR_congr {d : Nat} {r r' : Req} (hk : r'.kind = r.kind) (hrc : r'.rc = r.rc) : fAllR d r' = fAllR d r := by
+  unfold fAllR; rw [isAll_congr hk, hrc]
+
+theorem fAllR_settler {d : Nat} {r r' : Req} (hk : r'.kind = r.kind) (hs : r.settler = true) : fAllR d r' = fAllR d r := by
+  unfold fAllR; rw [isAll_congr hk, (settler_not_input hs).1]; rfl
+
+theorem isAll_of_kind {r : Req} {d idx : Nat} (hk : r.kind = .allInput d idx) : isAll d r = true := by unfold isAll; rw [hk]; simp
+theorem isAny_of_kind {r : Req} {d : Nat} (hk : r.kind = .anyInput d) : isAny d r = true := by unfold isAny; rw [hk]; simp
+theorem isAll_of_any {r : Req} {d d' : Nat} (hk : r.kind = .anyInput d) : isAll d' r = false := by unfold isAll; rw [hk]
+
+/-- the data block of an open combinator whose input fires: its target is still pending -/
+theorem target_pending_all_complete {m : M} (h : DataOK roots prog m) {d : Nat} (hd : d < m.datas.length) (hopen : (m.data d).rejected = false)
+    (hlast : (m.data d).resolved + 1 = (m.data d).total) : Pending m.cores (m.data d).target := by
+  rcases st_cases m.cores (m.data d).target with hp | hf | hr
+  · exact hp
+  · have hne : stOf m.cores (m.data d).target ≠ .pending := by obtain ⟨v, hv⟩ := hf; rw [hv]; intro e; cases e
+    rcases h.closed d _ (data_lookup m d hd) hne with hc | hc
+    · rw [hopen] at hc; cases hc
+    · omega
+  · have hne : stOf m.cores (m.data d).target ≠ .pending := by obtain ⟨v, hv⟩ := hr; rw [hv]; intro e; cases e
+    rcases h.closed d _ (data_lookup m d hd) hne with hc | hc
+    · rw [hopen] at hc; cases hc
+    · omega
+
+theorem target_pending_any {m : M} (h : DataOK roots prog m) {d : Nat} (hd : d < m.datas.length) (hopen : (m.data d).rejected = false)
+    {c i : Nat} {x : Req} (hx : rq m.cores c i = some x) (hk : isAny d x = true) : Pending m.cores (m.data d).target := by
+  have ha := any_exists h (data_lookup m d hd) hx hk
+  rcases st_cases m.cores (m.data d).target with hp | hf | hr
+  · exact hp
+  · have hne : stOf m.cores (m.data d).target ≠ .pending := by obtain ⟨v, hv⟩ := hf; rw [hv]; intro e; cases e
+    rcases h.closed d _ (data_lookup m d hd) hne with hc | hc
+    · rw [hopen] at hc; cases hc
+    · omega
+  · have hne : stOf m.cores (m.data d).target ≠ .pending := by obtain ⟨v, hv⟩ := hr; rw [hv]; intro e; cases e
+    rcases h.closed d _ (data_lookup m d hd) hne with hc | hc
+    · rw [hopen] at hc; cases hc
+    · omega
+
+/-- an input of an open all-of block is told of a rejection: the target is still pending (otherwise the block would be
+    complete, this input would have fulfilled, and its promise could not be rejected) -/
+theorem target_pending_all_reject {m : M} (h : DataOK roots prog m) {d : Nat} (hd : d < m.datas.length) (hopen : (m.data d).rejected = false)
+    {c i : Nat} {x : Req} (hx : rq m.cores c i = some x) (hk : isAll d x = true) (hrej : RejOK m.cores c) : Pending m.cores (m.data d).target := by
+  have key : stOf m.cores (m.data d).target ≠ .pending → False := by
+    intro hne
+    rcases h.closed d _ (data_lookup m d hd) hne with hc | hc
+    · rw [hopen] at hc; cases hc
+    · have := all_spent h (data_lookup m d hd) hopen hc hx hk
+      exact fulfilled_not_rejOK (h.inRc c i x hx this) hrej
+  rcases st_cases m.cores (m.data d).target with hp | hf | hr
+  · exact hp
+  · exact absurd (by obtain ⟨v, hv⟩ := hf; rw [hv]; intro e; cases e) key
+  · exact absurd (by obtain ⟨v, hv⟩ := hr; rw [hv]; intro e; cases e) key
+
 end Pistache.Promise
